@@ -16,11 +16,12 @@ TECHNIQUE = ('runtime monitoring: exception-type oracle on metamodel_from_str un
 RULE = ('seeds: random grammars from the C01 / C03 generators (full syntax incl. link references, RREL, modifiers), all *.tx '
         'files under /repo, grammar blocks in docs/; each seed is used as is and under 1-3 mutations: token '
         'drop/duplicate/swap/replace, character drop/insert/replace, targeted injections (undefined rule reference, invalid '
-        'regex, rule parameters with and without values, unknown parameters, self/mutually referencing rules, bad RREL, bad '
+        'regex, rule parameters with and without values, unknown parameters, self/mutually referencing rules, random graphs of alias rules (chains, cycles, chains leading into cycles), bad RREL, bad '
         'string escapes, repetition operators/modifiers on every kind of operand, base type redefinition, empty alternatives). '
         'Oracle: returns a metamodel or raises a TextXError subclass with a non-empty message (AssertionError only for an '
         'import statement in a string grammar). distinct = grammar text; non-trivial = the text was rejected')
-REQUIRED = {'texts': 10000, 'rejected_with_textx_error': 2000, 'accepted': 500, 'repo_seed_files': 20, 'targeted_injections': 1000}
+REQUIRED = {'texts': 10000, 'rejected_with_textx_error': 2000, 'accepted': 500, 'repo_seed_files': 20, 'targeted_injections': 1000,
+            'alias_graphs': 1000}
 
 _SEEDS = None
 
@@ -57,7 +58,7 @@ INJECT = [
     "\nX9[skipws='x']: 'a';\n", "\nX9[ws=5]: 'a';\n", "\nX9[foo]: 'a';\n", "\nX9[split]: ID;\n", "\nX9[split='']: ID;\n",
     "\nX9[noskipws, ws='\\t']: 'a';\n", "\nX9: '\\N{foo}';\n", "\nX9: '\\xzz';\n", "\nX9: '\\u12';\n", "\nX9: \"\\N{}\";\n",
     "\nX9: '\\777777';\n", "\nX9: Y9#; Y9: 'x';\n", "\nX9: t#INT;\n", "\nX9: 'a'#;\n", "\nX9: ('a' 'b')#[','];\n", "\nX9: X9;\n",
-    "\nX9: Y9; Y9: X9;\n", "\nX9: Y9 | X9; Y9: Z9; Z9: X9;\n", "\nX9: X9 'a' | 'b';\n", "\nX9: a=X9;\n", "\nX9: NoSuchRule;\n",
+    "\nX9: Y9; Y9: X9;\n", "\nW9: X9; X9: Y9; Y9: X9;\n", "\nV9: W9; W9: X9; X9: Y9; Y9: Z9; Z9: X9;\n", "\nX9: Y9; Y9: Y9;\n", "\nX9: Y9 | X9; Y9: Z9; Z9: X9;\n", "\nX9: X9 'a' | 'b';\n", "\nX9: a=X9;\n", "\nX9: NoSuchRule;\n",
     "\nX9: a=[NoSuchRule];\n", "\nX9: a=[X9|ID|];\n", "\nX9: a=[X9:ID|+q:a];\n", "\nX9: a=[X9:ID|a..b*];\n", "\nX9: a=[X9:ID|parent()];\n",
     "\nX9: a=[X9:ID|'x'~];\n", "\nX9: a=[X9:NoRule];\n", "\nX9: a=[INT];\n", "\nX9: a+=INT[eolterm ','];\n", "\nX9: a+=INT[','  ','];\n",
     "\nX9: a=INT?[','];\n", "\nX9: a?=INT*;\n", "\nX9: (a?=INT)+;\n", "\nX9: a*=INT a?=INT;\n", "\nINT: 'x';\n", "\nID: /x/;\nX9: a=ID;\n",
@@ -189,6 +190,14 @@ def one(ctx, i, rep=None):
     pos = r.choice([0, len(base)])
     check(ctx, base[:pos] + inj + base[pos:], rep, kind + ' + injection', injected=True)
     check(ctx, 'Model: a=INT;' + inj, rep, 'injection alone', injected=True)
+    # random graphs of alias rules (rules whose body is one rule reference): chains, cycles, chains leading into cycles
+    n = r.randint(2, 6)
+    names = ['Q%d' % k for k in range(n)]
+    targets = names + ['T9', 'T9', 'INT', 'Model']
+    alias = ''.join('%s: %s;\n' % (nm, r.choice(targets)) for nm in names)
+    entry = r.choice(['Model: a=INT;\n', 'Model: a=%s;\n' % names[0], 'Model: %s;\n' % r.choice(names), 'Model: a=INT | b=%s;\n' % r.choice(names)])
+    ctx.count('alias_graphs')
+    check(ctx, entry + alias + "T9: 't' x=INT;\n", rep, 'alias rule graph', injected=True)
 
 
 def run(ctx):
